@@ -1,4 +1,5 @@
 import DarkluaModel.C03.Lemmas
+import DarkluaModel.C04.Model
 /-! Helper lemmas for C04 (line accounting of the writer). -/
 namespace DarkluaModel.C04
 open DarkluaModel.C03
@@ -60,5 +61,117 @@ theorem shift_budget (k cur : Nat) (p : Bool) (op : Op) (h : op.budget cur p = t
       · exact Or.inl h
       · right; split at h <;> simp_all <;> omega
   | _ => rfl
+
+
+/-! ### `Block::remove_statement` re-attachment -/
+
+theorem insertAt_ge (l : List RTrivia) : ∀ (i : Nat) (t : RTrivia), l.length ≤ i → insertAt l i t = l ++ [t] := by
+  induction l with
+  | nil => intro i t _; cases i <;> rfl
+  | cons x xs ih =>
+    intro i t h
+    cases i with
+    | zero => simp at h
+    | succ j => simp only [insertAt, List.cons_append]; rw [ih j t (by simpa using h)]
+
+theorem nlAll_append (a b : List RTrivia) : nlAll (a ++ b) = nlAll a + nlAll b := by
+  induction a with
+  | nil => simp [nlAll]
+  | cons x xs ih => simp [nlAll, ih]; omega
+
+theorem nlAll_insertAt (l : List RTrivia) : ∀ (i : Nat) (t : RTrivia),
+    nlAll (insertAt l i t) = nlAll l + countNewLines t.text := by
+  induction l with
+  | nil => intro i t; cases i <;> simp [insertAt, nlAll]
+  | cons x xs ih =>
+    intro i t
+    cases i with
+    | zero => simp [insertAt, nlAll]; omega
+    | succ j => simp [insertAt, nlAll, ih j t]; omega
+
+theorem nl_gapTrivia (g : Nat) : countNewLines (gapTrivia g).text = g := by
+  simp [gapTrivia, cnl_replicate]
+
+theorem reattachLoop_inorder (cs : List RTrivia) : ∀ (token : List RTrivia) (index offset : Nat)
+    (prev : Option Nat), token.length ≤ index + offset →
+    reattachLoop token index offset prev cs = token ++ interleave prev cs := by
+  induction cs with
+  | nil => intro token _ _ _ _; simp [reattachLoop, interleave]
+  | cons t rest ih =>
+    intro token index offset prev h
+    simp only [reattachLoop, interleave]
+    generalize gapOf prev t.line = gap
+    by_cases hg : gap = 0
+    · subst hg
+      simp only [bne_self_eq_false, Bool.false_eq_true, if_false]
+      rw [insertAt_ge token _ _ h, ih _ _ _ _ (by simp; omega)]
+      simp
+    · have hb : (gap != 0) = true := by simpa using hg
+      simp only [hb, if_true]
+      rw [insertAt_ge token _ _ h, insertAt_ge _ _ _ (by simp; omega), ih _ _ _ _ (by simp; omega)]
+      simp
+
+theorem insertAt_append_len (pre own : List RTrivia) (t : RTrivia) :
+    insertAt (pre ++ own) pre.length t = pre ++ t :: own := by
+  induction pre with
+  | nil => cases own <;> rfl
+  | cons x xs ih => simp only [List.cons_append, List.length_cons, insertAt, ih]
+
+theorem reattachLoop_small_gaps (cs : List RTrivia) : ∀ (pre own : List RTrivia) (index offset : Nat)
+    (prev : Option Nat), pre.length = index + offset → smallGaps prev cs = true →
+    reattachLoop (pre ++ own) index offset prev cs = pre ++ interleave prev cs ++ own := by
+  induction cs with
+  | nil => intro pre own _ _ _ _ _; simp [reattachLoop, interleave]
+  | cons t rest ih =>
+    intro pre own index offset prev h hs
+    simp only [smallGaps, Bool.and_eq_true, decide_eq_true_eq] at hs
+    obtain ⟨hg1, hrest⟩ := hs
+    simp only [reattachLoop, interleave]
+    generalize gapOf prev t.line = gap at hg1
+    by_cases hg : gap = 0
+    · subst hg
+      simp only [bne_self_eq_false, Bool.false_eq_true, if_false]
+      rw [← h, insertAt_append_len]
+      have := ih (pre ++ [t]) own (index + 1) offset _ (by simp; omega) hrest
+      simpa using this
+    · have hb : (gap != 0) = true := by simpa using hg
+      have h1 : gap = 1 := by omega
+      subst h1
+      simp only [hb, if_true]
+      rw [← h, insertAt_append_len]
+      have e1 : pre ++ gapTrivia 1 :: own = (pre ++ [gapTrivia 1]) ++ own := by simp
+      have e2 : pre.length + 1 = (pre ++ [gapTrivia 1]).length := by simp
+      have e3 : index + (offset + 1) = (pre ++ [gapTrivia 1]).length := by simp; omega
+      rw [e1, e3, insertAt_append_len]
+      have := ih (pre ++ [gapTrivia 1] ++ [t]) own (index + 1) (offset + 1) _ (by simp; omega) hrest
+      simpa using this
+
+theorem nlAll_reattachLoop (cs : List RTrivia) : ∀ (token : List RTrivia) (index offset : Nat)
+    (prev : Option Nat),
+    nlAll (reattachLoop token index offset prev cs) = nlAll token + nlAll cs + gapSum prev cs := by
+  induction cs with
+  | nil => intro token _ _ _; simp [reattachLoop, nlAll, gapSum]
+  | cons t rest ih =>
+    intro token index offset prev
+    simp only [reattachLoop, nlAll, gapSum]
+    rw [ih]
+    generalize gapOf prev t.line = gap
+    by_cases hg : gap = 0
+    · subst hg
+      simp only [bne_self_eq_false, Bool.false_eq_true, if_false]
+      rw [nlAll_insertAt]; omega
+    · have hb : (gap != 0) = true := by simpa using hg
+      simp only [hb, if_true]
+      rw [nlAll_insertAt, nlAll_insertAt, nl_gapTrivia]; omega
+
+theorem budgetOk_trivia (c : Bool) (t : List UInt8) (cur : Nat) (p : Bool) (rest : List Op) :
+    budgetOk cur p (Op.trivia c t :: rest) =
+      budgetOk ((Op.trivia c t).lineAfter cur p) ((Op.trivia c t).pendingAfter p) rest := by
+  simp [budgetOk, Op.budget]
+
+theorem replicate_contains_nl {g : Nat} (h : g ≠ 0) : (List.replicate g (10 : UInt8)).contains 10 = true := by
+  cases g with
+  | zero => exact absurd rfl h
+  | succ k => simp [List.replicate_succ]
 
 end DarkluaModel.C04
